@@ -10,6 +10,7 @@
 #include "llbuild/Basic/ExecutionQueue.h"
 #include "llvm/Support/MemoryBuffer.h"
 #include <fuzzer/FuzzedDataProvider.h>
+#include <initializer_list>
 #include <memory>
 #include <string>
 #include <vector>
@@ -36,7 +37,7 @@ static const char* kWords[] = {
     "commandNamePriority", "perform-ownership-analysis"};
 
 struct YNode {
-  int kind;  // 0 scalar, 1 sequence, 2 mapping
+  int kind;  // 0 scalar, 1 sequence, 2 mapping, 3 null (empty value)
   std::string scalar;
   std::vector<YNode> seq;
   std::vector<std::pair<std::string, YNode>> map;
@@ -58,7 +59,8 @@ static std::string word(FuzzedDataProvider& fdp) {
 static YNode gen(FuzzedDataProvider& fdp, int depth, int& budget) {
   YNode n;
   budget--;
-  int k = fdp.ConsumeIntegralInRange<int>(0, 9);
+  int k = fdp.ConsumeIntegralInRange<int>(0, 10);
+  if (k == 10) { n.kind = 3; return n; }
   if (depth >= 5 || budget <= 0 || k < 4) { n.kind = 0; n.scalar = word(fdp); return n; }
   if (k < 6) {
     n.kind = 1;
@@ -75,6 +77,114 @@ static YNode gen(FuzzedDataProvider& fdp, int depth, int& budget) {
   return n;
 }
 
+static YNode sc(const std::string& s) { YNode n; n.kind = 0; n.scalar = s; return n; }
+static YNode sq(std::initializer_list<const char*> items) {
+  YNode n; n.kind = 1;
+  for (auto* i : items) n.seq.push_back(sc(i));
+  return n;
+}
+// A VALID description using every section and the common attributes of the built-in tools; the fuzzer
+// then replaces nodes at generated paths by nodes of a generated (usually wrong) kind, so that wrong node
+// kinds are reached at every depth of an otherwise acceptable document.
+static YNode skeleton(FuzzedDataProvider& fdp) {
+  YNode top; top.kind = 2;
+  YNode client; client.kind = 2;
+  client.map.emplace_back("name", sc("basic"));
+  client.map.emplace_back("version", sc("0"));
+  client.map.emplace_back("file-system", sc(fdp.ConsumeBool() ? "default" : "device-agnostic"));
+  top.map.emplace_back("client", client);
+  YNode tools; tools.kind = 2;
+  YNode shellTool; shellTool.kind = 2; shellTool.map.emplace_back("junk-attr", sc("1"));
+  tools.map.emplace_back("shell", shellTool);
+  top.map.emplace_back("tools", tools);
+  YNode targets; targets.kind = 2;
+  targets.map.emplace_back("", sq({"<all>"}));
+  targets.map.emplace_back("T", sq({"a.out", "<virt>"}));
+  top.map.emplace_back("targets", targets);
+  top.map.emplace_back("default", sc(""));
+  YNode nodes; nodes.kind = 2;
+  YNode d; d.kind = 2;
+  d.map.emplace_back("is-directory-structure", sc("true"));
+  d.map.emplace_back("content-exclusion-patterns", sq({"*.o", "tmp"}));
+  nodes.map.emplace_back("dir/", d);
+  YNode v; v.kind = 2; v.map.emplace_back("is-virtual", sc("true")); v.map.emplace_back("is-command-timestamp", sc("false"));
+  nodes.map.emplace_back("<virt>", v);
+  top.map.emplace_back("nodes", nodes);
+  YNode commands; commands.kind = 2;
+  {
+    YNode c; c.kind = 2;
+    c.map.emplace_back("tool", sc("shell"));
+    c.map.emplace_back("inputs", sq({"dir/", "b.o"}));
+    c.map.emplace_back("outputs", sq({"a.out", "<virt>"}));
+    c.map.emplace_back("args", fdp.ConsumeBool() ? sq({"echo", "-c"}) : sc("echo 1"));
+    YNode env; env.kind = 2; env.map.emplace_back("A", sc("1")); env.map.emplace_back("PATH", sc("/abs/path"));
+    c.map.emplace_back("env", env);
+    c.map.emplace_back("deps", fdp.ConsumeBool() ? sq({"a.d", "b.d"}) : sc("a.d"));
+    c.map.emplace_back("deps-style", sc("makefile"));
+    c.map.emplace_back("inherit-env", sc("false"));
+    c.map.emplace_back("working-directory", sc("/abs/path"));
+    c.map.emplace_back("description", sc("C1"));
+    commands.map.emplace_back("C1", c);
+  }
+  {
+    YNode c; c.kind = 2;
+    c.map.emplace_back("tool", sc("phony"));
+    c.map.emplace_back("inputs", sq({"a.out"}));
+    c.map.emplace_back("outputs", sq({"<all>"}));
+    commands.map.emplace_back("C2", c);
+  }
+  {
+    YNode c; c.kind = 2;
+    c.map.emplace_back("tool", sc("mkdir"));
+    c.map.emplace_back("outputs", sq({"dir2"}));
+    commands.map.emplace_back("C3", c);
+  }
+  {
+    YNode c; c.kind = 2;
+    c.map.emplace_back("tool", sc("symlink"));
+    c.map.emplace_back("outputs", sq({"ln"}));
+    c.map.emplace_back("contents", sc("a.out"));
+    commands.map.emplace_back("C4", c);
+  }
+  {
+    YNode c; c.kind = 2;
+    c.map.emplace_back("tool", sc("stale-file-removal"));
+    c.map.emplace_back("expectedOutputs", sq({"/abs/path", "a.out"}));
+    c.map.emplace_back("roots", sq({"/abs"}));
+    c.map.emplace_back("outputs", sq({"<stale>"}));
+    commands.map.emplace_back("C5", c);
+  }
+  {
+    YNode c; c.kind = 2;
+    c.map.emplace_back("tool", sc("archive"));
+    c.map.emplace_back("inputs", sq({"b.o"}));
+    c.map.emplace_back("outputs", sq({"lib.a"}));
+    commands.map.emplace_back("C6", c);
+  }
+  top.map.emplace_back("commands", commands);
+  return top;
+}
+static void mutate(YNode& n, FuzzedDataProvider& fdp, int depth, int& budget) {
+  bool stop = depth > 0 && (fdp.ConsumeIntegralInRange<int>(0, 3) == 0 || n.kind == 0 || n.kind == 3 ||
+                            (n.kind == 1 && n.seq.empty()) || (n.kind == 2 && n.map.empty()));
+  if (stop) {
+    switch (fdp.ConsumeIntegralInRange<int>(0, 5)) {
+    case 0: n = YNode(); n.kind = 3; break;                                  // empty value
+    case 1: n = sc(word(fdp)); break;                                        // scalar
+    case 2: { YNode r; r.kind = 1; r.seq.push_back(gen(fdp, depth + 1, budget)); n = r; break; }   // sequence
+    case 3: { YNode r; r.kind = 2; r.map.emplace_back(word(fdp), gen(fdp, depth + 1, budget)); n = r; break; }
+    case 4: n = gen(fdp, depth, budget); break;
+    default:                                                                  // wrap the old node
+      { YNode old = n; YNode r; r.kind = fdp.ConsumeBool() ? 1 : 2;
+        if (r.kind == 1) r.seq.push_back(old); else r.map.emplace_back(word(fdp), old);
+        n = r; }
+    }
+    return;
+  }
+  if (n.kind == 1) mutate(n.seq[fdp.ConsumeIntegralInRange<size_t>(0, n.seq.size() - 1)], fdp, depth + 1, budget);
+  else if (n.kind == 2) mutate(n.map[fdp.ConsumeIntegralInRange<size_t>(0, n.map.size() - 1)].second, fdp, depth + 1, budget);
+}
+
 static void emitScalar(std::string& out, const std::string& s) {
   out.push_back('"');
   for (unsigned char c : s) {
@@ -85,6 +195,7 @@ static void emitScalar(std::string& out, const std::string& s) {
   out.push_back('"');
 }
 static void emitFlow(std::string& out, const YNode& n) {
+  if (n.kind == 3) { out += "~"; return; }
   if (n.kind == 0) { emitScalar(out, n.scalar); return; }
   if (n.kind == 1) {
     out += "[";
@@ -103,6 +214,7 @@ static void emitFlow(std::string& out, const YNode& n) {
 }
 static void emitBlock(std::string& out, const YNode& n, int indent) {
   std::string pad(indent, ' ');
+  if (n.kind == 3) { out += "\n"; return; }
   if (n.kind == 0) { emitScalar(out, n.scalar); out += "\n"; return; }
   if (n.kind == 1) {
     if (n.seq.empty()) { out += "[]\n"; return; }
@@ -182,8 +294,14 @@ extern "C" int LLVMFuzzerTestOneInput(const uint8_t* data, size_t size) {
   YNode top;
   top.kind = 2;
   int budget = 120;
-  bool wellOrdered = fdp.ConsumeBool();
-  if (wellOrdered) {
+  int shape = fdp.ConsumeIntegralInRange<int>(0, 3);
+  bool wellOrdered = shape == 1;
+  if (shape >= 2) {
+    // a valid description with 0-3 nodes replaced
+    top = skeleton(fdp);
+    int nmut = fdp.ConsumeIntegralInRange<int>(0, 3);
+    for (int i = 0; i < nmut; ++i) mutate(top, fdp, 0, budget);
+  } else if (wellOrdered) {
     for (const char* s : kSections) {
       if (fdp.ConsumeIntegralInRange<int>(0, 9) == 0) continue;
       YNode v;
